@@ -13,6 +13,10 @@ import traceback
 import warnings
 
 VERIF = os.path.dirname(os.path.dirname(os.path.abspath(__file__)))
+# developer switch (evaluating seeded changes in a scratch worktree, see tools/eval_seeded.sh): never set by registered commands
+REPO = os.environ.get("VERIF_ALT_REPO", "/repo").rstrip("/")
+REPO_SRC = REPO + "/src/felupe"
+EVID = os.path.join(VERIF, "evidence") if REPO == "/repo" else os.path.join(REPO, ".verif_evidence")
 EXIT_OK, EXIT_VIOLATION, EXIT_INCONCLUSIVE = 0, 1, 3
 
 
@@ -56,7 +60,7 @@ def _worker(args):
     err = None
     try:
         try:
-            runner = CaseRunner(prop, name, fn, cfg, tier, seed, load_known(), os.path.join(VERIF, "evidence", "replays"))
+            runner = CaseRunner(prop, name, fn, cfg, tier, seed, load_known(), os.path.join(EVID, "replays"))
             res = runner.run()
         except BaseException as e:  # noqa: BLE001 - report as harness error, never as pass
             err = ("%s: %s" % (type(e).__name__, e), traceback.format_exc()[-3000:])
@@ -180,7 +184,7 @@ def _raised_in_felupe(exc):
         files.append(tb.tb_frame.f_code.co_filename)
         tb = tb.tb_next
     last_harness = max([i for i, f in enumerate(files) if f.startswith(VERIF)], default=-1)
-    return any(f.startswith("/repo/src/felupe") for f in files[last_harness + 1 :])
+    return any(f.startswith(REPO_SRC) for f in files[last_harness + 1 :])
 
 
 def _exception_violation(prop, name, fn, cfg, tier, seed, exc):
@@ -202,7 +206,7 @@ def _exception_violation(prop, name, fn, cfg, tier, seed, exc):
                 return None
             known = [k for k in load_known() if k.get("status", "known") == "known" and k.get("property") == prop and k.get("case") == name
                      and all(cfg.get(a) == b for a, b in (k.get("cfg") or {}).items()) and ("raised:" + type(e2).__name__).startswith(k.get("obligation", ""))]
-            rd = os.path.join(VERIF, "evidence", "replays")
+            rd = os.path.join(EVID, "replays")
             os.makedirs(rd, exist_ok=True)
             h = hashlib.sha1(json.dumps([name, _jsonable(cfg), "raised"], sort_keys=True).encode()).hexdigest()[:10]
             path = os.path.join(rd, "%s-%s.json" % (prop, h))
@@ -365,7 +369,7 @@ def finish(prop, mod, tier, seed, results, wall):
         "twins": {"total": agg["twins_total"], "violated": agg["twins_violated"]},
         "verdicts": verdicts,
         "functions_encoded": ["%s:%s" % f for f in sorted(funcs)][:400],
-        "source_files": {f: file_sha(os.path.join("/repo", f)) for f in files},
+        "source_files": {f: file_sha(os.path.join(REPO, f)) for f in files},
         "bounds": meta.get("bounds", []),
         "outside_claim": meta.get("outside", []),
         "known_findings_hit": known_hits,
@@ -387,8 +391,8 @@ def finish(prop, mod, tier, seed, results, wall):
         "wall_s": round(wall, 2),
         "violations": len(violations),
     }
-    os.makedirs(os.path.join(VERIF, "evidence"), exist_ok=True)
-    with open(os.path.join(VERIF, "evidence", "%s.json" % prop), "w") as f:
+    os.makedirs(os.path.join(EVID), exist_ok=True)
+    with open(os.path.join(EVID, "%s.json" % prop), "w") as f:
         json.dump(evidence, f, indent=1, sort_keys=True)
     for k in known_hits:
         print("KNOWN-FINDING: property=%s %s [%s %s %s]" % (prop, k.get("what", ""), k["case"], json.dumps(k["cfg"], sort_keys=True), k["obligation"]))
